@@ -206,13 +206,14 @@ PROPS['C02'] = floor_prop(
      'rec': _c.only(('device_failure', 'supplied_new_part', 'received_part')), 'res': _c.only(('shut',))},
     ('rec device_failure', 'rec received_part'), 'non-trivial = at least one part was received; distinct by scenario text',
     # sys / floorl: devices created and wired while the simulation runs (C02W covers them)
-    families=[('floor', 100, 2000), ('floorc', 50, 1000), ('floors', 150, 3000), ('sys', 60, 1000), ('floorl', 40, 800), ('floorq', 40, 800)])
+    families=[('floor', 100, 2000), ('floorc', 50, 1000), ('floors', 150, 3000), ('sys', 60, 1000), ('floorl', 40, 800), ('floorq', 40, 800), ('floorb', 60, 1000)])
 PROPS['C03'] = floor_prop(
     'C03', ['SimProc.Props.C03', 'SimProc.Props.C03W'], ['SimProc/Props/C03.lean', 'SimProc/Props/C03W.lean'],
     {'ev': None, 'now': None, 'ran': None, 'd': _c.fields('part', 'out', 'buf', 'wds', 'blk', 'down', 'wres', 'lvl')},
     ('d ',), 'implementation traces are produced with the deep-copy probe at every clock advance; non-trivial = a scenario '
              'in which some device waited for downstream space', runner='ProbeRunner',
-    families=[('floorc', 80, 1500), ('floor', 50, 1000), ('floors', 120, 2500), ('floorq', 40, 800)],
+    # floorl / sys: devices constructed mid-run behind a blocked upstream ("connection added")
+    families=[('floorc', 80, 1500), ('floor', 50, 1000), ('floors', 120, 2500), ('floorq', 40, 800), ('floorl', 40, 800), ('sys', 40, 800)],
     nontrivial=lambda st, s: any(l.startswith('d ') and ' wds=1 ' in l for l in st))
 PROPS['C04'] = floor_prop(
     'C04', ['SimProc.Props.C04', 'SimProc.Props.C04W'], ['SimProc/Props/C04.lean', 'SimProc/Props/C04W.lean'],
@@ -251,6 +252,8 @@ PROPS['C15'] = floor_prop(
     {'rec': None, 'd': _c.fields('lvl', 'prod', 'recv'), 'r': None, 'res': _c.only(('shut',))},
     ('rec ',), 'non-trivial = records were written',
     families=[('floor', 100, 2000), ('floors', 100, 2000), ('maint', 60, 1000), ('sched', 60, 1000), ('rm', 60, 1000)])
+import c15 as _c15
+PROPS['C15']['extra'] = _c15.event_trace
 PROPS['C16'] = floor_prop(
     'C16', ['SimProc.Props.C16', 'SimProc.Props.C16W', 'SimProc.Props.C15W', 'SimProc.Props.C16D', 'SimProc.Props.C15D'], ['SimProc/Props/C16.lean', 'SimProc/Props/C16W.lean', 'SimProc/Props/C15W.lean', 'SimProc/Props/C16D.lean', 'SimProc/Props/C15D.lean'],
     {'d': _c.fields('val', 'vh', 'cost', 'rval'), 'm': _c.fields('val', 'vh'), 'p': _c.fields('v'),
